@@ -25,9 +25,9 @@ import (
 // unmarshaled seam, the real Start handler, stringy, bcrypt and the local accounter with an injected sink,
 // all behind the real Serve loop over the scripted network.
 
-type cfgFeed struct{ ch chan config.ServerConfig }
+type cfgFeed struct{ ch cfgChan }
 
-func (f cfgFeed) Config() chan config.ServerConfig { return f.ch }
+func (f cfgFeed) Config() cfgChan { return f.ch }
 
 // sinkRec records accounting sink calls with the clock index at which they happened.
 type sinkRec struct {
@@ -190,7 +190,7 @@ func newRWorld(cfg config.ServerConfig, kc *keychainRec, keepLog bool, opts ...t
 	}
 	ctx, cancel := context.WithCancel(context.Background())
 	r := &rworld{Log: lg, Sink: sink, cancel: cancel}
-	feed := cfgFeed{ch: make(chan config.ServerConfig, 1)}
+	feed := cfgFeed{ch: mkCfgChan(1)}
 	ld, err := loader.NewLoader(ctx, feed,
 		loader.SetLoggerProvider(lg),
 		loader.SetKeychainProvider(secret.New()),
@@ -205,7 +205,7 @@ func newRWorld(cfg config.ServerConfig, kc *keychainRec, keepLog bool, opts ...t
 		cancel()
 		return nil, err
 	}
-	feed.ch <- cfg
+	cfgSend(feed.ch, cfg)
 	ld.BlockUntilLoaded()
 	r.Loader, r.feed = ld, feed
 	r.W = srvx.Start(ld, lg, opts...)
@@ -221,11 +221,11 @@ func (r *rworld) stop() error {
 
 // reload publishes another configuration and waits until a lookup observes the loader loop again.
 func (r *rworld) reload(cfg config.ServerConfig) {
-	r.feed.ch <- cfg
+	cfgSend(r.feed.ch, cfg)
 	// the loader loop is single threaded: once a query is answered after the config was taken from the
 	// one-slot channel, the new configuration is in force. Push a second, identical value to be sure
 	// the first one was consumed.
-	r.feed.ch <- cfg
+	cfgSend(r.feed.ch, cfg)
 	r.Loader.Get(context.Background(), srvx.Addr4(0, 0, 0, 0, 1))
 }
 
